@@ -573,9 +573,17 @@ func runC04(c *Ctx) {
 // tests the suffix without the dot and relies on position 63 being checked
 // here).
 func arpaV6FullScan(c *Ctx, prop string, npos int64) {
+	// exact decision first (c04exact.go); the position-set and table rules
+	// below are the fall-back for a decoder outside the evaluator's grammar
+	exact := c04DecoderExact(c, prop, int(npos))
 	if f := c.fn("netutil", "ipv6FromReversed"); f != nil {
 		arpa := f.Params[0]
 		n := int64(16)
+		if exact {
+			c.L.Floor(prop+".v6.every-byte-checked", 1)
+			arpaV6Callers(c, prop, f, n)
+			return
+		}
 		// enumerate, for every counted loop, the positions of the name that
 		// are read and can lead to a rejection
 		covered := map[int64]string{}
@@ -634,42 +642,7 @@ func arpaV6FullScan(c *Ctx, prop string, npos int64) {
 			}
 			c.check(len(missing) == 0, prop+".v6.every-byte-checked", f, sprintf("every position 0..%d of the name is read and can reject (even: hex digit, odd: '.')", npos-1), nil,
 				sprintf("%d of %d positions covered; unchecked positions: %v — a name with any other byte there is decoded as if it were canonical", npos-int64(len(missing)), npos, show))
-			// any check hoisted out of the loop must still cover the positions: covered by the set above
-			maxLen, okL := intConst(c, "netutil", "arpaV6MaxLen")
-			c.check(okL && maxLen == 4*n-1+int64(len(".ip6.arpa")), prop+".v6.every-byte-checked", f, "arpaV6MaxLen == 4*16-1+len(\".ip6.arpa\")", nil, sprintf("constant is %d", maxLen))
-			// callers guard the exact length
-			ncall := 0
-			for _, g := range c.P.Funcs("netutil") {
-				for _, ci := range core.AllCalls(g) {
-					if ci.Common().StaticCallee() != f {
-						continue
-					}
-					ncall++
-					okLen := false
-					// `len(x) == K` holds on every path to the call: as a true `==`, a
-					// false `!=`, with the constant on either side
-					for _, gd := range core.Facts(g).At(ci.Block()) {
-						cond, truth := core.StripNot(gd.Cond, gd.Truth)
-						b, ok := cond.(*ssa.BinOp)
-						if !ok || (b.Op != token.EQL && b.Op != token.NEQ) || (b.Op == token.EQL) != truth {
-							continue
-						}
-						x, y := b.X, b.Y
-						if _, isK := core.ConstInt(x); isK {
-							x, y = y, x
-						}
-						if k, isK := core.ConstInt(y); isK && okL && k == maxLen {
-							if lc, ok := x.(*ssa.Call); ok && core.CalleeName(&lc.Call) == "builtin.len" && lc.Call.Args[0] == ci.Common().Args[0] {
-								okLen = true
-							}
-						}
-					}
-					c.check(okLen, prop+".v6.every-byte-checked", g, "ipv6FromReversed(x) only under len(x) == arpaV6MaxLen", ci, "a shorter name would be indexed out of range, a longer one would have unchecked bytes")
-				}
-			}
-			if ncall == 0 {
-				c.undecided(prop+".v6.every-byte-checked", f, "callers", nil, "no caller found")
-			}
+			arpaV6Callers(c, prop, f, n)
 			// R4 decoder side: ip[15-i] = hi<<4 | lo with lo from offset 0, hi from offset 2
 			okDec := false
 			core.EachInstr(f, func(in ssa.Instruction) {
@@ -1652,4 +1625,45 @@ func c04HexTable(c *Ctx, prop string) {
 		}
 	}
 	c.check(bad == "", prop+".hex-table", f, what, nil, "exact equality of the eight output bits as Boolean functions of the input byte. "+bad)
+}
+
+// arpaV6Callers: the length constant and the callers' exact-length guard of
+// the fixed-position decoder.
+func arpaV6Callers(c *Ctx, prop string, f *ssa.Function, n int64) {
+	// any check hoisted out of the loop must still cover the positions: covered by the set above
+	maxLen, okL := intConst(c, "netutil", "arpaV6MaxLen")
+	c.check(okL && maxLen == 4*n-1+int64(len(".ip6.arpa")), prop+".v6.every-byte-checked", f, "arpaV6MaxLen == 4*16-1+len(\".ip6.arpa\")", nil, sprintf("constant is %d", maxLen))
+	// callers guard the exact length
+	ncall := 0
+	for _, g := range c.P.Funcs("netutil") {
+		for _, ci := range core.AllCalls(g) {
+			if ci.Common().StaticCallee() != f {
+				continue
+			}
+			ncall++
+			okLen := false
+			// `len(x) == K` holds on every path to the call: as a true `==`, a
+			// false `!=`, with the constant on either side
+			for _, gd := range core.Facts(g).At(ci.Block()) {
+				cond, truth := core.StripNot(gd.Cond, gd.Truth)
+				b, ok := cond.(*ssa.BinOp)
+				if !ok || (b.Op != token.EQL && b.Op != token.NEQ) || (b.Op == token.EQL) != truth {
+					continue
+				}
+				x, y := b.X, b.Y
+				if _, isK := core.ConstInt(x); isK {
+					x, y = y, x
+				}
+				if k, isK := core.ConstInt(y); isK && okL && k == maxLen {
+					if lc, ok := x.(*ssa.Call); ok && core.CalleeName(&lc.Call) == "builtin.len" && lc.Call.Args[0] == ci.Common().Args[0] {
+						okLen = true
+					}
+				}
+			}
+			c.check(okLen, prop+".v6.every-byte-checked", g, "ipv6FromReversed(x) only under len(x) == arpaV6MaxLen", ci, "a shorter name would be indexed out of range, a longer one would have unchecked bytes")
+		}
+	}
+	if ncall == 0 {
+		c.undecided(prop+".v6.every-byte-checked", f, "callers", nil, "no caller found")
+	}
 }
